@@ -597,10 +597,16 @@ func (n *VNode) Mine(o VBuildOpts) (*types.WorkObject, error) {
 		return nil, err
 	}
 	if r := n.Append(blk); r.Err() != nil {
-		return blk, r.Err()
+		return blk, VOwnBlockRejected{r.Err()}
 	}
 	return blk, nil
 }
+
+// VOwnBlockRejected: the node refused a block its own worker had just assembled.
+type VOwnBlockRejected struct{ Err error }
+
+func (e VOwnBlockRejected) Error() string { return "own block rejected: " + e.Err.Error() }
+func (e VOwnBlockRejected) Unwrap() error { return e.Err }
 
 // SetHeads rewinds/forwards the harness' notion of the tips (used to build forks).
 func (n *VNode) SetHeads(h [3]*types.WorkObject) { n.Heads = h }
